@@ -795,6 +795,86 @@ def _unfollowed_mutation(ctor, num_kw, ck):
     return pred
 
 
+def _threaded_helper(ck, ctor, num_kw):
+    """`img, counter = helper(..., counter)`: the helper numbers the record itself and hands the counter back (every return is
+    `(record | None, counter)`).  Checked in the helper: on every path either no increment and None, or one increment and a record that
+    carries the counter after the increment; in the caller: the result is appended exactly when it is not None.  True when the shape is
+    present (obligations emitted), False otherwise."""
+    from contracts import c14_sites as SI
+    from contracts.c14_flow import reaching
+    fn = ck.raw_fn
+    if fn is None:
+        return False
+    pm = SI.parent_map(fn)
+    found = []
+    for n in ast.walk(fn):
+        if isinstance(n, ast.Assign) and len(n.targets) == 1 and isinstance(n.targets[0], ast.Tuple) and len(n.targets[0].elts) == 2 \
+                and all(isinstance(e, ast.Name) for e in n.targets[0].elts) and isinstance(n.value, ast.Call) and isinstance(n.value.func, ast.Name):
+            h = ck.mod.functions.get(n.value.func.id)
+            if h is None or not _constructs(ctor)(h):
+                continue
+            img, cnt = n.targets[0].elts[0].id, n.targets[0].elts[1].id
+            params = [a.arg for a in h.args.args + h.args.kwonlyargs]
+            passed = [p_ for p_ in params if (_arg_for_any(h, n.value, p_) is not None and isinstance(_arg_for_any(h, n.value, p_), ast.Name) and _arg_for_any(h, n.value, p_).id == cnt)]
+            if len(passed) != 1:
+                continue
+            found.append((n, h, img, cnt, passed[0]))
+    if not found:
+        return False
+    bad_step, bad_num, bad_guard = [], [], []
+    counter = found[0][3]
+    for (asg, h, img, cnt, p_) in found:
+        hk = SI.Checker("C14", ck.rel, h.name, ck.mod.repo, inline=False)
+        hpm = hk.pm
+        rets = [r for r in ast.walk(h) if isinstance(r, ast.Return)]
+
+        def ret_kind(r):
+            v = r.value
+            if not (isinstance(v, ast.Tuple) and len(v.elts) == 2 and isinstance(v.elts[1], ast.Name) and v.elts[1].id == p_):
+                return "other"
+            e = v.elts[0]
+            if isinstance(e, ast.Constant) and e.value is None:
+                return "none"
+            c = _ctor_of_arg(hk, e, r, ctor)
+            if c is None:
+                return "other"
+            nv = SI.kwv(c, num_kw)
+            if not (isinstance(nv, ast.Name) and nv.id == p_):
+                return "unnumbered"
+            b = reaching(h, hpm, p_, c)
+            return "numbered" if b is not None and SI.is_inc(b.node, p_) else "stale"
+        kinds = {id(r): ret_kind(r) for r in rets}
+        hk.total |= {"_get_image_pixel_dimensions", "guess_content_type", "_get_content_type", ctor}
+        events = [lambda n_: SI.is_inc(n_, p_)] + [(lambda n_, k_=k_: isinstance(n_, ast.Return) and kinds.get(id(n_)) == k_) for k_ in ("numbered", "none", "unnumbered", "stale", "other")]
+        for (vec, status) in SI.paths2(h.body, events, hk.total):
+            inc, num, non, unn, stale, other = vec
+            if status != "return":
+                bad_step.append(f"{h.name}: a path ends without returning (record, counter)")
+            elif other:
+                return False          # a return of another shape: not this style
+            elif unn:
+                bad_step.append(f"{h.name}: a path returns a record without a number")
+            elif stale:
+                bad_num.append(f"{h.name}: a record carries the counter as it was before the increment")
+            elif (inc, num, non) not in ((1, 1, 0), (0, 0, 1)):
+                bad_step.append(f"{h.name}: a path has {inc} increment(s) and returns {'a record' if num else 'None'}")
+        apps = [a for a in ast.walk(fn) if isinstance(a, ast.Call) and isinstance(a.func, ast.Attribute) and a.func.attr == "append" and len(a.args) == 1
+                and isinstance(a.args[0], ast.Name) and a.args[0].id == img and reaching(fn, pm, img, a) is not None and reaching(fn, pm, img, a).node is asg]
+        if len(apps) != 1 or not _guarded_not_none(pm, SI.enclosing_stmt(pm, apps[0]), img):
+            bad_guard.append(f"line {LN(asg)}: the result of {h.name} is not appended exactly when it is not None")
+    ck.counter = counter
+    ck.add("numbering", "one-increment-per-numbered-image", not bad_step and not bad_guard, "; ".join(sorted(set(bad_step + bad_guard)))[:500], definite=False)
+    ck.add("numbering", "number-is-the-counter-after-its-increment", not bad_num, "; ".join(sorted(set(bad_num))), definite=False)
+    return True
+
+
+def _arg_for_any(h, call, pname):
+    params = [x.arg for x in h.args.args]
+    if pname in params and params.index(pname) < len(call.args):
+        return call.args[params.index(pname)]
+    return next((kw.value for kw in call.keywords if kw.arg == pname), None)
+
+
 def _counter_start(ck):
     """numbering#counter-starts-at-zero-once-per-document for the functions that own their counter (or number by len(list) + 1)"""
     if getattr(ck, "counter", None) is None and hasattr(ck, "len_numbering_start"):
@@ -906,6 +986,8 @@ def _common(ck, ctor, num_kw, payload_kw, reads, counter, sniff_total=True):
                 ck.counter = hs["counter"]
                 _helper_style_obligations(ck, hs, hname, ("number-is-the-counter-after-its-increment", "one-increment-per-numbered-image", None))
                 break
+    if hs is None and _threaded_helper(ck, ctor, num_kw):
+        return sites_after_numbering(ck, sites, payload_kw, reads)
     if hs is None and numbered and _len_numbering(ck, ctor, num_kw, numbered):
         return sites_after_numbering(ck, sites, payload_kw, reads)
     if hs is None:
@@ -1978,7 +2060,9 @@ def known_findings(kf, violations, repo, tier):
             res = {"reproduced": False, "note": str(e)}
         still = bool(res.get("reproduced"))
         outside = res.get("outside_exclusion")
-        covers = [f["obligation"]] if still and outside is None and f["obligation"] in vio_ids else []
+        import re as _re
+        fam = _re.sub(r"-\d+$", "", f["obligation"])
+        covers = [v for v in vio_ids if _re.sub(r"-\d+$", "", v) == fam] if still and outside is None else []
         return {"finding": f["id"], "still_fails": still, "line": f"{f['id']}: {f['what']}", "covers": covers, "exclusion": f.get("exclusion"),
                 "witness_replay": str(res.get("observed", res.get("note", "")))[:300],
                 "outside_exclusion": "nothing fails outside the exclusion (bounded native sweep)" if outside is None else str(outside)[:400]}
